@@ -1486,7 +1486,11 @@ func measure(fn int, e string, a []string) measurement {
 	cmd.Stdin = bytes.NewReader(in)
 	var out bytes.Buffer
 	cmd.Stdout = &out
-	cmd.Env = append(os.Environ(), "GOMEMLIMIT=6GiB")
+	// GOGC=off: the CPU time of the child then measures the call, not the collector (the concurrent collector's worker threads
+	// add CPU time that grows with the heap: 2.3 s of CPU for a call of 0.96 s wall at 860 MB, a "growth" of 6–7 per doubling
+	// for a quadratic call); the memory limit still makes the collector run before the process outgrows the machine, and the
+	// allocation figures come from the allocation counter, which does not depend on the collector
+	cmd.Env = append(os.Environ(), "GOMEMLIMIT=6GiB", "GOGC=off")
 	done := make(chan error, 1)
 	t0 := time.Now()
 	if err := cmd.Start(); err != nil {
